@@ -174,7 +174,20 @@ func H_C08_register_vs_create() {
 //verif:cut (*github.com/containerd/nri/pkg/adaptation.Adaptation).newExternalPlugin => verifC08NewExternal
 //verif:cut (*github.com/containerd/nri/pkg/adaptation.plugin).start => verifC08Start
 //verif:expect-cover in-snapshot created-later
-func H_C08_failed_sync_then_register() {
+func H_C08_failed_sync_then_register() { failedSyncThenRegister() }
+
+// H_C07_failed_sync_does_not_block_requests: the same scenario seen from C07: a plugin that fails while it is
+// being synchronized is dropped without stalling the runtime - the creation request inside the sync block
+// completes and the next plugin registers (a stall is reported as a deadlock).
+//verif:property C07
+//verif:preempt 1
+//verif:maxgoroutines 8
+//verif:cut (*github.com/containerd/nri/pkg/adaptation.Adaptation).newExternalPlugin => verifC08NewExternal
+//verif:cut (*github.com/containerd/nri/pkg/adaptation.plugin).start => verifC08Start
+//verif:expect-cover in-snapshot created-later
+func H_C07_failed_sync_does_not_block_requests() { failedSyncThenRegister() }
+
+func failedSyncThenRegister() {
 	w := &envWorld{}
 	r := &Adaptation{}
 	w.r = r
